@@ -140,6 +140,23 @@ pub fn mix(seed: u64, s: &str, i: u64) -> u64 {
     crate::model::crypto::fnv64(&v)
 }
 
+/// Run a check; a panic in the harness's own code becomes a "HARNESS" failure (inconclusive), not a crash.
+pub fn guarded<C>(check: &(dyn Fn(&C, &mut CaseCtx) -> CheckResult + Sync), c: &C, cc: &mut CaseCtx) -> CheckResult {
+    match std::panic::catch_unwind(std::panic::AssertUnwindSafe(|| check(c, cc))) {
+        Ok(r) => r,
+        Err(p) => {
+            let m = if let Some(s) = p.downcast_ref::<&str>() {
+                s.to_string()
+            } else if let Some(s) = p.downcast_ref::<String>() {
+                s.clone()
+            } else {
+                "panic".into()
+            };
+            Err(Failure::new("HARNESS", format!("the harness's own check code panicked: {}", m)))
+        }
+    }
+}
+
 impl Ctx {
     pub fn new(id: &str, tier: Tier, seed: u64, strict: bool) -> Ctx {
         let threads = std::env::var("VERIF_THREADS")
@@ -285,7 +302,7 @@ impl Ctx {
                             return Ok(());
                         }
                         let mut cc = CaseCtx::default();
-                        let r = check(&c, &mut cc);
+                        let r = guarded(check, &c, &mut cc);
                         match r {
                             Ok(()) => {
                                 if !failed.get() {
@@ -322,7 +339,7 @@ impl Ctx {
                             }
                             // re-run the minimal case to get its own failure text
                             let mut cc = CaseCtx::default();
-                            let f = match check(&minimal, &mut cc) {
+                            let f = match guarded(check, &minimal, &mut cc) {
                                 Err(f) => f,
                                 Ok(()) => last_fail.borrow().clone().unwrap_or(Failure::new("unstable", "failure did not reproduce on the shrunk case")),
                             };
@@ -357,7 +374,7 @@ impl Ctx {
                 sc.spawn(move || {
                     for c in part {
                         let mut cc = CaseCtx::default();
-                        match check(c, &mut cc) {
+                        match guarded(check, c, &mut cc) {
                             Ok(()) => self.record(sub, cc),
                             Err(f) => {
                                 if f.sig == "HARNESS" {
